@@ -6,6 +6,7 @@ use std::mem;
 use std::os::unix::fs::FileExt;
 use std::path::Path;
 use std::sync::atomic::{AtomicUsize, Ordering};
+use std::sync::RwLock;
 
 /// This is the size of the initial event map, and also how large it grows by
 /// when we need to grow it. This should be a multiple of the page size (4096)
@@ -26,6 +27,11 @@ pub(crate) struct EventStore {
     // This is a linear sequence of events in an append-only memory mapped file which
     // internally remembers the 'end' pointer and internally prevents multiple writers.
     event_map: MmapAppend,
+
+    // Held for reading while slicing into the map and for writing while the map is
+    // resized. (MmapAppend's Deref takes its internal read lock twice in a row; a
+    // resize queueing for the write lock in between would deadlock with it.)
+    grow_lock: RwLock<()>,
 }
 
 impl EventStore {
@@ -76,6 +82,7 @@ impl EventStore {
             event_map_file,
             event_map_file_len: AtomicUsize::new(len),
             event_map,
+            grow_lock: RwLock::new(()),
         })
     }
 
@@ -87,6 +94,7 @@ impl EventStore {
 
     /// Get an event by its offset in the map
     pub(crate) unsafe fn get_event_by_offset(&self, offset: usize) -> Result<&Event, Error> {
+        let _no_resize = self.grow_lock.read().unwrap();
         if offset >= self.read_event_map_end() {
             return Err(InnerError::EndOfInput.into());
         }
@@ -142,8 +150,11 @@ impl EventStore {
                             self.event_map_file.set_len(new_file_len as u64)?;
                             vpoint!("es.store.after_set_len");
 
-                            // Resize the memory map
-                            self.event_map.resize(new_file_len)?;
+                            // Resize the memory map (when nobody is slicing into it)
+                            {
+                                let _no_readers = self.grow_lock.write().unwrap();
+                                self.event_map.resize(new_file_len)?;
+                            }
                             vpoint!("es.store.after_resize");
 
                             // Save this new length
